@@ -1,6 +1,1560 @@
-//! C07 -- monitor (to be written)
-use crate::fw::ctx;
+//! C07 -- graph scalars: exact ring arithmetic, honest approx flag, faithful conversions,
+//! dyadic ordering.
+//!
+//! Workload: random straight-line programs (expression DAGs) over `Scalar4` and over
+//! `Dyadic`. After EVERY node the stored value is read through the raw-parts hook
+//! (`verif_raw`, never through `val_and_exp` / `complex_value`, which are under test) and
+//! compared with the same node evaluated in the exact BigInt model `oracle::ring::R`.
+//!
+//! Verdict rules (readings of the property text, chosen so correct code cannot be blamed):
+//! * result NOT flagged approximate  =>  stored value == model value exactly; `is_zero`,
+//!   `is_one`, `==` (against every earlier unflagged node) and
+//!   `exact_phase_and_sqrt2_pow` agree with the model value.  Equivalently: stored value
+//!   != model value  =>  the flag must be set ("honest flag").
+//! * result flagged approximate => nothing is demanded of value, `==` or the predicates.
+//! * f64 constants are exact dyadic numbers in the model (they are "arbitrary f64
+//!   constants" of the quantifier); phases that are not multiples of pi/4 enter the model
+//!   with the value quizx stored for them and must be flagged (their true value is
+//!   irrational).
+//! * conversions (`TryFrom<&Scalar4>/<Scalar4> for Complex<f64>`, `complex_value`,
+//!   `f64::try_from(Dyadic)`) are judged against the STORED value (exact or approximate
+//!   node alike) converted exactly (BigInt -> nearest f64), tolerance 1e-12 * largest
+//!   |coefficient|; only inside the exponent window the conversion itself accepts
+//!   (an `Err` is a violation only if every non-zero coefficient lies in
+//!   [2^-800, 2^900], where no reading of "supported window" could exclude it;
+//!   other `Err`s are counted by cause).
+//! * `From<f64>` must round-trip bit-exactly (up to the sign of zero) inside that window.
+//! * `Dyadic::cmp`, `<`, `>` must be the order of the stored real numbers (flags are not
+//!   part of the value); `abs_diff_eq(a,b,eps)` must be true when |a-b| <= eps/4 and false
+//!   when |a-b| >= 4 eps (factor-4 margin: the subtraction may truncate).
+//! * "supported exponent range": all exponents stay below 2^29 in magnitude so that the i32
+//!   exponent arithmetic cannot overflow.
+//! * after a violating node the model is re-synchronised to the stored value so that one
+//!   defect is reported once, at the node where it happens.
+
+use crate::fw::{ctx, guarded, par_cases, Caught};
+use crate::gen::prng::{hash_str, Rng};
+use crate::oracle::ratio::{self, dyadic_to_f64_nearest, f64_decode, Q};
+use crate::oracle::ring::{self, r_of_scalar, Num, R};
+use approx::AbsDiffEq;
+use num::bigint::BigInt;
+use num::complex::Complex;
+use num::Signed;
+use quizx::phase::Phase;
+use quizx::scalar::{Dyadic, FromPhase, One, Scalar4, Sqrt2, Zero};
+use serde_json::{json, Value};
+use std::cmp::Ordering;
+use std::collections::BTreeMap;
+
+type Raw = (bool, bool, u64, i32);
+
+const EXP_LIMIT: i64 = 1 << 29;
+/// largest width (in bits) the exact model is allowed to reach in one value
+const MODEL_BITS: i64 = 20_000;
+
+#[derive(Default)]
+struct Tally(BTreeMap<String, u64>);
+impl Tally {
+    fn add(&mut self, k: &str) {
+        *self.0.entry(k.to_string()).or_default() += 1;
+    }
+    fn flush(self) {
+        let c = ctx();
+        for (k, n) in self.0 {
+            c.count(&k, n);
+        }
+    }
+}
+
+// ------------------------------------------------------------------------------------
+// raw helpers
+// ------------------------------------------------------------------------------------
+
+fn r_of_raw(raw: Raw) -> R {
+    let (s, _a, m, e) = raw;
+    if m == 0 {
+        return R::zero();
+    }
+    let v = BigInt::from(m);
+    R::new([if s { -v } else { v }, BigInt::zero(), BigInt::zero(), BigInt::zero()], e as i64)
+}
+
+fn raw_json(r: &Raw) -> Value {
+    json!({"sign": r.0, "approx": r.1, "mantissa": format!("0x{:016x}", r.2), "exp": r.3})
+}
+
+fn raws_json(r: &[Raw; 4]) -> Value {
+    json!(r.iter().map(raw_json).collect::<Vec<_>>())
+}
+
+/// (lowest bit exponent, one past the highest bit exponent) of a model value
+fn span(m: &R) -> Option<(i64, i64)> {
+    if Num::is_zero(m) {
+        return None;
+    }
+    let bits = m.c.iter().map(|x| x.bits() as i64).max().unwrap();
+    Some((m.e, m.e + bits))
+}
+
+fn joint_width(a: &R, b: &R) -> i64 {
+    match (span(a), span(b)) {
+        (Some((l1, h1)), Some((l2, h2))) => h1.max(h2) - l1.min(l2),
+        (Some((l, h)), None) | (None, Some((l, h))) => h - l,
+        (None, None) => 0,
+    }
+}
+
+fn width(a: &R) -> i64 {
+    span(a).map(|(l, h)| h - l).unwrap_or(0)
+}
+
+fn shift_class(a: &Raw, b: &Raw) -> Option<&'static str> {
+    if a.2 == 0 || b.2 == 0 {
+        return None;
+    }
+    let s = (a.3 as i64 - b.3 as i64).abs();
+    Some(match s {
+        0 => "0",
+        1 => "1",
+        2..=31 => "2..31",
+        32..=62 => "32..62",
+        63 => "63",
+        64 => "64",
+        65 => "65",
+        66..=128 => "66..128",
+        _ => ">128",
+    })
+}
+
+// ------------------------------------------------------------------------------------
+// operand pools
+// ------------------------------------------------------------------------------------
+
+fn gen_mant(r: &mut Rng) -> i64 {
+    let v: i64 = match r.below(16) {
+        0 => 0,
+        1 => 1,
+        2 => 1i64 << r.below(63),
+        3 => (1i64 << r.range(1, 62)) + 1,
+        4 => (1i64 << r.range(1, 62)) - 1,
+        5 => *r.pick(&[(1i64 << 32) + 1, (1i64 << 32) - 1, (1i64 << 31) + 1, 0xFFFF_FFFF, 0x1_0000_0001]),
+        6 => i64::MAX,
+        7 => i64::MAX - r.range(0, 3),
+        8 => (r.next_u64() >> 1) as i64,                // random 63 bit
+        9 => ((r.next_u64() >> 1) | 1 | (1 << 62)) as i64, // odd, top bit of i64 set
+        10 => (r.next_u64() >> r.below(63)) as i64 & i64::MAX,
+        11 => r.range(-16, 16),
+        12 => r.range(-1024, 1024),
+        13 => 3 * (1i64 << r.below(60)),
+        14 => {
+            if r.chance(0.05) {
+                i64::MIN
+            } else {
+                i64::MIN + 1
+            }
+        }
+        _ => r.range(2, 9),
+    };
+    if v != i64::MIN && r.chance(0.4) {
+        -v
+    } else {
+        v
+    }
+}
+
+#[derive(Clone, Copy)]
+struct ExpBase(i64);
+
+fn gen_base(r: &mut Rng) -> ExpBase {
+    ExpBase(match r.below(12) {
+        0..=4 => 0,
+        5 => r.range(-20, 20),
+        6 => r.range(-100, 100),
+        7 => r.range(-1000, 1000),
+        8 => *r.pick(&[-1022i64, -1021, -1074, -960, 960, 1023, 1024, -63, 63]),
+        9 => r.range(-(1 << 20), 1 << 20),
+        10 => (1 << 27) - r.range(0, 1000),
+        _ => -(1 << 27) + r.range(0, 1000),
+    })
+}
+
+fn gen_exp(r: &mut Rng, base: ExpBase) -> i32 {
+    let off = match r.below(10) {
+        0..=3 => 0,
+        4 => *r.pick(&[1i64, -1, 2, -2]),
+        5 => *r.pick(&[62i64, 63, 64, 65, 66, -62, -63, -64, -65, -66]),
+        6 => *r.pick(&[100i64, 127, 128, 129, -100, -127, -128, -129, 31, 32, 33, -31, -32, -33]),
+        7 => r.range(-70, 70),
+        8 => r.range(-8, 8),
+        _ => r.range(-300, 300),
+    };
+    (base.0 + off) as i32
+}
+
+fn gen_f64(r: &mut Rng) -> f64 {
+    match r.below(14) {
+        0 => *r.pick(&[0.0, -0.0, 1.0, -1.0, 0.5, 2.0, 0.1, -0.3, 1.0 / 3.0, std::f64::consts::PI, std::f64::consts::SQRT_2, 4.3, -55.13]),
+        1 => r.range(-1000, 1000) as f64,
+        2 => r.f64() * 2.0 - 1.0,
+        3 => (r.f64() - 0.5) * 1e6,
+        4 => (r.f64() - 0.5) * 1e-6,
+        5 => *r.pick(&[1e-300, 1e300, 5e-324, f64::MAX, f64::MIN_POSITIVE, -f64::MAX, 2.2250738585072009e-308, 1e-290, 1e-280, 3e-289, 1e270]),
+        6 => ((1u64 << 53) - 1) as f64 * 2f64.powi(r.range(-80, 80) as i32),
+        7 => (r.range(1, 1 << 20) as f64) * 2f64.powi(r.range(-60, 60) as i32),
+        8 => {
+            // random finite bit pattern
+            loop {
+                let f = f64::from_bits(r.next_u64());
+                if f.is_finite() {
+                    break f;
+                }
+            }
+        }
+        9 => {
+            let k = r.range(-8, 8) as f64;
+            (std::f64::consts::PI * k / 8.0).cos()
+        }
+        10 => 2f64.powi(r.range(-1074, 1023) as i32),
+        11 => f64::from_bits(r.next_u64() >> 12) , // subnormal
+        _ => (r.f64() * 2.0 - 1.0) * 2f64.powi(r.range(-40, 40) as i32),
+    }
+}
+
+fn r_of_f64(x: f64) -> R {
+    let (m, e) = f64_decode(x).expect("finite");
+    R::new([BigInt::from(m), BigInt::zero(), BigInt::zero(), BigInt::zero()], e)
+}
+
+/// a phase n/d for from_phase & co
+fn gen_phase(r: &mut Rng) -> (i64, i64) {
+    match r.below(10) {
+        0..=5 => (r.range(-9, 9), 4),
+        6 => (r.range(-4, 4), 2),
+        7 => (r.range(-3, 3), 1),
+        8 => (r.range(-20, 20), *r.pick(&[3i64, 5, 7, 8, 16, 12])),
+        _ => (r.range(-300, 300), r.range(1, 300)),
+    }
+}
+
+fn gcd(a: i64, b: i64) -> i64 {
+    let (mut a, mut b) = (a.abs(), b.abs());
+    while b != 0 {
+        let t = a % b;
+        a = b;
+        b = t;
+    }
+    a
+}
+
+/// exact model of e^{i pi n/d} when it lies in Z[omega]
+fn phase_model(n: i64, d: i64) -> Option<R> {
+    let g = gcd(n, d).max(1);
+    let (n, d) = (n / g, d / g);
+    if 4 % d == 0 {
+        Some(R::omega_pow(n * (4 / d)))
+    } else {
+        None
+    }
+}
+
+// ------------------------------------------------------------------------------------
+// Scalar4 programs
+// ------------------------------------------------------------------------------------
+
+#[derive(Clone)]
+struct Node {
+    real: Scalar4,
+    raw: [Raw; 4],
+    flagged: bool,
+    model: R,
+    /// bound on |exponent| of any stored coefficient
+    eb: i64,
+    op: Value,
+    kind: &'static str,
+    args: (usize, usize),
+}
+
+fn eb_of_raw(raw: &[Raw; 4]) -> i64 {
+    raw.iter().filter(|r| r.2 != 0).map(|r| (r.3 as i64).abs() + 64).max().unwrap_or(0)
+}
+
+struct Prog {
+    family: &'static str,
+    index: u64,
+    nodes: Vec<Node>,
+    tally: Tally,
+    violated: bool,
+}
+
+impl Prog {
+    fn listing(&self, upto: usize) -> Value {
+        json!(self
+            .nodes
+            .iter()
+            .take(upto + 1)
+            .enumerate()
+            .map(|(i, n)| json!({"node": i, "op": n.op, "raw(a,b,c,d)": raws_json(&n.raw), "flagged_approx": n.flagged, "model": format!("{}", n.model)}))
+            .collect::<Vec<_>>())
+    }
+
+    fn violation(&mut self, sig: &str, at: usize, detail: Value) {
+        self.violated = true;
+        let mut d = detail;
+        d["program"] = self.listing(at);
+        d["failing_node"] = json!(at);
+        ctx().violation(sig, self.family, self.index, d);
+    }
+
+    /// Judge a freshly computed node and append it.
+    fn push(&mut self, real: Scalar4, mut model: R, op: Value, kind: &'static str, args: (usize, usize), operand_has_approx_zero: bool, irrational_const: bool) {
+        let raw = real.verif_raw();
+        let flagged = raw.iter().any(|r| r.1);
+        let stored = r_of_scalar(&real);
+        let idx = self.nodes.len();
+        let eb = eb_of_raw(&raw);
+        self.tally.add(&format!("node:{kind}"));
+        self.tally.add(if flagged { "nodes:flagged-approx" } else { "nodes:exact" });
+        if raw.iter().any(|r| r.2 & 1 == 1) {
+            self.tally.add("mantissa:64-significant-bits");
+        }
+        if raw.iter().any(|r| r.2 == 0 && r.1) {
+            self.tally.add("coefficient:approx-flagged-zero");
+        }
+        if raw.iter().any(|r| r.2 == 0 && (r.0 || r.3 != 0)) {
+            // zero is documented to be canonical (normalize): sign off, exp 0
+            self.tally.add("coefficient:non-canonical-zero");
+        }
+        self.nodes.push(Node { real, raw, flagged, model: model.clone(), eb, op, kind, args });
+        if raw.iter().any(|r| r.2 != 0 && r.2 >> 63 == 0) {
+            // same root cause as in the Dyadic family (carry path of Dyadic::add), same signature
+            self.violation("Dyadic::add/sub|stored-mantissa-not-normalised", idx, json!({"operation": kind, "reached_through": "Scalar4"}));
+        }
+        if irrational_const && !flagged {
+            self.violation(&format!("{kind}|irrational-constant-not-flagged"), idx, json!({"what": "a phase that is not a multiple of pi/4 has an irrational value; the stored float must be flagged approximate"}));
+        }
+        if stored != model {
+            if flagged {
+                self.tally.add("nodes:flagged-and-value-differs-from-model");
+                if Num::is_zero(&stored) && !Num::is_zero(&model) {
+                    self.tally.add("nodes:flagged-zero-with-nonzero-model");
+                }
+            } else {
+                // one root cause = one signature: the op kind stays in the detail when the
+                // discriminating condition already identifies the cause
+                let sig = if operand_has_approx_zero {
+                    "Scalar4-arithmetic|unflagged-result-differs-from-exact-value|operand-has-approx-flagged-zero-coefficient".to_string()
+                } else {
+                    format!("{kind}|unflagged-result-differs-from-exact-value|other")
+                };
+                self.violation(
+                    &sig,
+                    idx,
+                    json!({"what": "result is not flagged approximate but differs from the exact value", "operation": kind, "stored": format!("{stored}"), "exact": format!("{model}")}),
+                );
+                // re-synchronise so that descendants are judged on their own
+                model = stored.clone();
+                self.nodes[idx].model = model.clone();
+            }
+        } else if flagged {
+            self.tally.add("nodes:flagged-but-value-exact");
+        }
+        if !flagged {
+            self.check_exact_node(idx);
+        }
+        self.check_conversion(idx);
+    }
+
+    fn check_exact_node(&mut self, idx: usize) {
+        let n = self.nodes[idx].clone();
+        let m = &n.model;
+        // is_zero / is_one
+        let z = n.real.is_zero();
+        if z != Num::is_zero(m) {
+            self.violation("Scalar4::is_zero|disagrees-with-exact-value", idx, json!({"observed": z, "exact": format!("{m}")}));
+        }
+        let o = n.real.is_one();
+        let want_one = *m == R::one();
+        if want_one {
+            self.tally.add("pred:is_one-true");
+        }
+        if z {
+            self.tally.add("pred:is_zero-true");
+        }
+        if o != want_one {
+            self.violation("Scalar4::is_one|disagrees-with-exact-value", idx, json!({"observed": o, "exact": format!("{m}")}));
+        }
+        // exact_phase_and_sqrt2_pow
+        let want = phase_form(m);
+        match guarded(|| n.real.exact_phase_and_sqrt2_pow()) {
+            Err(e) => self.violation(&format!("exact_phase_and_sqrt2_pow|panic|{}", e.site()), idx, json!({"panic": e.text()})),
+            Ok(got) => {
+                let got_kp = got.map(|(ph, p)| {
+                    let r = ph.to_rational();
+                    (Q::from_i64s(*r.numer(), *r.denom()), p as i64)
+                });
+                let ok = match (&want, &got_kp) {
+                    (None, None) => true,
+                    (Some((k, p)), Some((q, p2))) => p == p2 && q.congruent_mod2(&Q::from_i64s(*k, 4)),
+                    _ => false,
+                };
+                self.tally.add(if want.is_some() { "exact_phase:recognisable" } else { "exact_phase:not-of-that-form" });
+                if !ok {
+                    let full64 = n.raw.iter().any(|r| r.2 & 1 == 1);
+                    let class = match (&want, &got_kp) {
+                        (None, Some(_)) => "false-positive",
+                        (Some(_), None) => "false-negative",
+                        _ => "wrong-phase-or-power",
+                    };
+                    let cond = if full64 { "coefficient-with-64-significant-bits" } else { "other" };
+                    self.violation(
+                        &format!("exact_phase_and_sqrt2_pow|{class}|{cond}"),
+                        idx,
+                        json!({"observed": got_kp.map(|(q, p)| json!({"phase": format!("{q}"), "sqrt2_pow": p})), "expected": want.map(|(k, p)| json!({"phase": format!("{k}/4"), "sqrt2_pow": p})), "exact": format!("{m}")}),
+                    );
+                }
+            }
+        }
+        // == against every earlier unflagged node
+        for j in 0..idx {
+            if self.nodes[j].flagged {
+                continue;
+            }
+            let want_eq = self.nodes[j].model == *m;
+            let got_eq = self.nodes[j].real == n.real;
+            let got_ne = self.nodes[j].real != n.real;
+            self.tally.add(if want_eq { "eq:equal-values" } else { "eq:different-values" });
+            if got_eq != want_eq || got_ne == got_eq {
+                let class = if want_eq { "equal-values-compare-unequal" } else { "different-values-compare-equal" };
+                self.violation(&format!("Scalar4::eq|{class}"), idx, json!({"other_node": j, "observed_eq": got_eq, "expected_eq": want_eq}));
+                break;
+            }
+        }
+    }
+
+    fn check_conversion(&mut self, idx: usize) {
+        let n = self.nodes[idx].clone();
+        let tops: Vec<i64> = n.raw.iter().filter(|r| r.2 != 0).map(|r| r.3 as i64 + 64).collect();
+        let max_top = tops.iter().copied().max();
+        let by_ref = guarded(|| Complex::<f64>::try_from(&n.real));
+        let by_val = guarded(|| Complex::<f64>::try_from(n.real));
+        let cv = guarded(|| n.real.complex_value());
+        let (by_ref, by_val) = match (by_ref, by_val) {
+            (Ok(a), Ok(b)) => (a, b),
+            (Err(e), _) | (_, Err(e)) => {
+                self.violation(&format!("TryFrom<Scalar4> for Complex|panic|{}", e.site()), idx, json!({"panic": e.text()}));
+                return;
+            }
+        };
+        let same_bits = |a: &Complex<f64>, b: &Complex<f64>| (a.re == b.re || (a.re.is_nan() && b.re.is_nan())) && (a.im == b.im || (a.im.is_nan() && b.im.is_nan()));
+        let differ = match (&by_ref, &by_val) {
+            (Ok(a), Ok(b)) => !same_bits(a, b),
+            (Err(_), Err(_)) => false,
+            _ => true,
+        };
+        if differ {
+            self.violation("TryFrom<Scalar4> for Complex|by-ref-and-by-value-differ", idx, json!({"by_ref": format!("{by_ref:?}"), "by_value": format!("{by_val:?}")}));
+        }
+        match by_ref {
+            Err(_) => {
+                // complex_value() is documented to be the unwrapped conversion: it panics here
+                if cv.is_ok() {
+                    self.violation("complex_value|inconsistent-with-TryFrom", idx, json!({"try_from": "Err", "complex_value": format!("{:?}", cv.ok())}));
+                }
+                let all_in_safe_window = tops.iter().all(|t| *t - 1 >= -800 && *t <= 900);
+                if all_in_safe_window {
+                    self.violation(
+                        "TryFrom<Scalar4> for Complex|err-for-representable-scalar|all-coefficients-in-[2^-800,2^900]",
+                        idx,
+                        json!({"what": "conversion refused although every non-zero coefficient is comfortably inside the f64 range"}),
+                    );
+                } else {
+                    let min_top = tops.iter().copied().min().unwrap_or(0);
+                    let cause = if max_top.unwrap_or(0) > 900 {
+                        "coefficient-above-2^900"
+                    } else if max_top.unwrap_or(0) - 1 < -800 {
+                        "all-coefficients-below-2^-800"
+                    } else if min_top - 1 < -800 {
+                        "tiny-coefficient-next-to-representable-one"
+                    } else {
+                        "other"
+                    };
+                    self.tally.add(&format!("conv:err:{cause}"));
+                }
+            }
+            Ok(got) => {
+                match &cv {
+                    Ok(c2) if same_bits(c2, &got) => {}
+                    other => {
+                        self.violation("complex_value|inconsistent-with-TryFrom", idx, json!({"try_from": format!("{got:?}"), "complex_value": format!("{:?}", other.as_ref().map_err(|e| e.text()))}));
+                    }
+                }
+                let Some(mt) = max_top else {
+                    // zero scalar
+                    self.tally.add("conv:judged");
+                    if got.re != 0.0 || got.im != 0.0 {
+                        self.violation("complex_value|zero-scalar-converts-to-nonzero", idx, json!({"observed": format!("{got:?}")}));
+                    }
+                    return;
+                };
+                if mt > 1000 {
+                    // the exact value is not (safely) representable: nothing is demanded
+                    self.tally.add("conv:skipped-value-above-2^1000");
+                    return;
+                }
+                // expected from the STORED value, exactly
+                let st = r_of_scalar(&n.real);
+                let f = |x: &BigInt| dyadic_to_f64_nearest(x, st.e);
+                let a = f(&st.c[0]);
+                let c2 = f(&st.c[2]);
+                let bmd = f(&(&st.c[1] - &st.c[3]));
+                let bpd = f(&(&st.c[1] + &st.c[3]));
+                let h = std::f64::consts::FRAC_1_SQRT_2;
+                let want = Complex::new(a + bmd * h, c2 + bpd * h);
+                let big = st.c.iter().map(|x| x.abs()).max().unwrap();
+                let m = dyadic_to_f64_nearest(&big, st.e);
+                let tol = 1e-12 * m;
+                let err = (got.re - want.re).abs().max((got.im - want.im).abs());
+                self.tally.add("conv:judged");
+                if !(err <= tol) {
+                    // discriminating condition: is the observed number what one gets when a
+                    // 64-significant-bit mantissa wraps negative (q -> q - sgn(q) 2^top(q)) in one
+                    // of the four converted quantities a, c, b-d, b+d ?
+                    let wrapped = |x: &BigInt| -> f64 {
+                        if x.is_zero() {
+                            return 0.0;
+                        }
+                        let t = BigInt::from(1) << (x.bits() as usize);
+                        let w = if x.is_negative() { x + t } else { x - t };
+                        dyadic_to_f64_nearest(&w, st.e)
+                    };
+                    let (bmd_x, bpd_x) = (&st.c[1] - &st.c[3], &st.c[1] + &st.c[3]);
+                    let mut wrap = false;
+                    for ra in [a, wrapped(&st.c[0])] {
+                        for rb in [bmd, wrapped(&bmd_x)] {
+                            for ia in [c2, wrapped(&st.c[2])] {
+                                for ib in [bpd, wrapped(&bpd_x)] {
+                                    let w = Complex::new(ra + rb * h, ia + ib * h);
+                                    if (got.re - w.re).abs().max((got.im - w.im).abs()) <= tol {
+                                        wrap = true;
+                                    }
+                                }
+                            }
+                        }
+                    }
+                    let cond = if wrap { "consistent-with-64-bit-mantissa-wrapping-negative" } else { "other" };
+                    self.violation(
+                        &format!("complex_value|inaccurate|{cond}"),
+                        idx,
+                        json!({"observed": format!("{got:?}"), "expected_from_stored_value": format!("{want:?}"), "largest_coefficient": m, "error": err, "tolerance": tol}),
+                    );
+                }
+            }
+        }
+    }
+}
+
+/// If the value is omega^k * sqrt2^p return (k in 0..8, p).
+fn phase_form(m: &R) -> Option<(i64, i64)> {
+    if Num::is_zero(m) {
+        return None;
+    }
+    for k in 0..8i64 {
+        for parity in 0..2i64 {
+            let base = R::omega_pow(k).mul(&R::sqrt2_pow(parity));
+            if base.c == m.c {
+                return Some((k, 2 * (m.e - base.e) + parity));
+            }
+        }
+    }
+    None
+}
+
+fn has_approx_zero(raw: &[Raw; 4]) -> bool {
+    raw.iter().any(|r| r.2 == 0 && r.1)
+}
+
+fn pick_node(r: &mut Rng, n: usize) -> usize {
+    // biased to recent nodes
+    if r.chance(0.5) {
+        n - 1 - r.below(n.min(3))
+    } else {
+        r.below(n)
+    }
+}
+
+fn gen_const(r: &mut Rng, p: &mut Prog, base: ExpBase) {
+    let c = r.below(16);
+    let (real, model, op, kind, irr): (Result<Scalar4, Caught>, R, Value, &'static str, bool) = match c {
+        0..=3 => {
+            let mut co = [0i64; 4];
+            let nn = 1 + r.below(4);
+            for _ in 0..nn {
+                co[r.below(4)] = gen_mant(r);
+            }
+            if r.chance(0.3) {
+                for x in co.iter_mut() {
+                    if *x == 0 {
+                        *x = gen_mant(r);
+                    }
+                }
+            }
+            let pow = gen_exp(r, base);
+            (guarded(|| Scalar4::new(co, pow)), R::from_i64s(co, pow as i64), json!({"Scalar4::new": [co, pow]}), "Scalar4::new", false)
+        }
+        4 => {
+            let co = [gen_mant(r), gen_mant(r), r.range(-3, 3), r.range(-3, 3)];
+            (guarded(|| Scalar4::from(co)), R::from_i64s(co, 0), json!({"Scalar4::from([i64;4])": co}), "From<[i64;4]>", false)
+        }
+        5 => {
+            let v = if r.chance(0.5) { r.range(-40, 40) } else { gen_mant(r) };
+            (guarded(|| Scalar4::from(v)), R::from_i64s([v, 0, 0, 0], 0), json!({"Scalar4::from(i64)": v}), "From<i64>", false)
+        }
+        6 | 7 => {
+            let x = gen_f64(r);
+            let which = r.below(3);
+            let name = ["From<f64>", "Scalar4::real", "From<[f64;4]>(x,0,0,0)"][which];
+            let real = guarded(|| match which {
+                0 => Scalar4::from(x),
+                1 => Scalar4::real(x),
+                _ => Scalar4::from([x, 0.0, 0.0, 0.0]),
+            });
+            (real, r_of_f64(x), json!({name: x, "bits": format!("{:016x}", x.to_bits())}), "f64-constant", false)
+        }
+        8 => {
+            let (re, im) = (gen_f64(r), gen_f64(r));
+            let which = r.below(2);
+            let real = guarded(|| if which == 0 { Scalar4::complex(re, im) } else { Scalar4::from(Complex::new(re, im)) });
+            let m = r_of_f64(re).add(&r_of_f64(im).mul(&R::omega_pow(2)));
+            (real, m, json!({"Scalar4::complex": [re, im], "bits": [format!("{:016x}", re.to_bits()), format!("{:016x}", im.to_bits())]}), "complex-f64-constant", false)
+        }
+        9 => {
+            let xs = [gen_f64(r), gen_f64(r), gen_f64(r), gen_f64(r)];
+            let mut m = R::zero();
+            for i in 0..4 {
+                m = m.add(&r_of_f64(xs[i]).mul(&R::omega_pow(i as i64)));
+            }
+            (guarded(|| Scalar4::from(xs)), m, json!({"Scalar4::from([f64;4])": xs, "bits": xs.map(|x| format!("{:016x}", x.to_bits()))}), "From<[f64;4]>", false)
+        }
+        10 | 11 => {
+            let (n, d) = gen_phase(r);
+            let which = r.below(3);
+            let real = guarded(|| match which {
+                0 => Scalar4::from_phase((n, d)),
+                1 => Scalar4::from_phase(Phase::new(num::Rational64::new(n, d))),
+                _ => Scalar4::from(Phase::from((n, d))),
+            });
+            match phase_model(n, d) {
+                Some(m) => (real, m, json!({"from_phase": [n, d]}), "from_phase", false),
+                None => {
+                    let m = real.as_ref().map(|s| r_of_scalar(s)).unwrap_or_else(|_| R::zero());
+                    (real, m, json!({"from_phase": [n, d]}), "from_phase(float)", true)
+                }
+            }
+        }
+        12 => {
+            let (n, d) = gen_phase(r);
+            let real = guarded(|| Scalar4::one_plus_phase((n, d)));
+            match phase_model(n, d) {
+                Some(m) => (real, R::one().add(&m), json!({"one_plus_phase": [n, d]}), "one_plus_phase", false),
+                None => {
+                    let m = real.as_ref().map(|s| r_of_scalar(s)).unwrap_or_else(|_| R::zero());
+                    (real, m, json!({"one_plus_phase": [n, d]}), "one_plus_phase(float)", true)
+                }
+            }
+        }
+        13 => {
+            let pw = match r.below(4) {
+                0 => r.range(-6, 6),
+                1 => r.range(-200, 200),
+                2 => 2 * base.0 + r.range(-3, 3),
+                _ => r.range(-(1 << 27), 1 << 27),
+            } as i32;
+            let which = r.below(4);
+            let (real, pw) = match which {
+                0 if pw.abs() < 100 => (guarded(Scalar4::sqrt2), 1),
+                1 if pw.abs() < 100 => (guarded(Scalar4::one_over_sqrt2), -1),
+                _ => (guarded(|| Scalar4::sqrt2_pow(pw)), pw),
+            };
+            (real, R::sqrt2_pow(pw as i64), json!({"sqrt2_pow": pw}), "sqrt2_pow", false)
+        }
+        14 => match r.below(3) {
+            0 => (guarded(Scalar4::zero), R::zero(), json!("zero()"), "zero", false),
+            1 => (guarded(Scalar4::one), R::one(), json!("one()"), "one", false),
+            _ => (guarded(Scalar4::minus_one), R::int(-1), json!("minus_one()"), "minus_one", false),
+        },
+        _ => {
+            // small Gaussian-like integers: the bread and butter of ZX scalars
+            let co = [r.range(-3, 3), r.range(-3, 3), r.range(-3, 3), r.range(-3, 3)];
+            let pow = r.range(-6, 6) as i32 + base.0 as i32;
+            (guarded(|| Scalar4::new(co, pow)), R::from_i64s(co, pow as i64), json!({"Scalar4::new": [co, pow]}), "Scalar4::new", false)
+        }
+    };
+    match real {
+        Ok(s) => {
+            p.push(s, model, op, kind, (usize::MAX, usize::MAX), false, irr);
+            if kind == "f64-constant" || kind == "complex-f64-constant" {
+                check_f64_roundtrip(p);
+            }
+        }
+        Err(e) => {
+            p.violated = true;
+            ctx().violation(&format!("{kind}|panic|{}", e.site()), p.family, p.index, json!({"constructor": op, "panic": e.text()}));
+        }
+    }
+}
+
+/// conversion from floats round-trips (last node is an f64 constant)
+fn check_f64_roundtrip(p: &mut Prog) {
+    let idx = p.nodes.len() - 1;
+    let n = p.nodes[idx].clone();
+    // the floats that went in are exactly the model coefficients 0 and 2
+    let want_re = dyadic_to_f64_nearest(&n.model.c[0], n.model.e);
+    let want_im = dyadic_to_f64_nearest(&n.model.c[2], n.model.e);
+    // From<f64> must store the float exactly ("Dyadic can store any f64 losslessly")
+    if r_of_scalar(&n.real) != n.model {
+        p.violation("From<f64>|stored-value-differs-from-float", idx, json!({"stored": format!("{}", r_of_scalar(&n.real)), "float_exact": format!("{}", n.model)}));
+        return;
+    }
+    match guarded(|| Complex::<f64>::try_from(&n.real)) {
+        Err(e) => p.violation(&format!("From<f64>->Complex|panic|{}", e.site()), idx, json!({"panic": e.text()})),
+        Ok(Err(_)) => {
+            let tops: Vec<i64> = n.raw.iter().filter(|r| r.2 != 0).map(|r| r.3 as i64 + 64).collect();
+            let small = tops.iter().any(|t| *t - 1 < -800);
+            p.tally.add(if small { "f64-roundtrip:err:|x|<2^-800" } else { "f64-roundtrip:err:|x|>2^900" });
+            // (an Err inside the safe window is reported by check_conversion)
+        }
+        Ok(Ok(c)) => {
+            p.tally.add("f64-roundtrip:judged");
+            if c.re != want_re || c.im != want_im {
+                p.violation("From<f64>->Complex|round-trip-not-exact", idx, json!({"in": [want_re, want_im], "out": [c.re, c.im]}));
+            }
+        }
+    }
+}
+
+fn gen_op(r: &mut Rng, p: &mut Prog, base: ExpBase) {
+    let n = p.nodes.len();
+    for _attempt in 0..8 {
+        let a = pick_node(r, n);
+        let b = if r.chance(0.12) { a } else { pick_node(r, n) };
+        let (na, nb) = (p.nodes[a].clone(), p.nodes[b].clone());
+        let opk = r.below(20);
+        let az = has_approx_zero(&na.raw);
+        let abz = az || has_approx_zero(&nb.raw);
+        let variant = r.below(6);
+        match opk {
+            0..=4 | 5..=7 => {
+                // add / sub
+                let sub = opk >= 5;
+                if joint_width(&na.model, &nb.model) > MODEL_BITS || joint_width(&r_of_scalar(&na.real), &r_of_scalar(&nb.real)) > MODEL_BITS {
+                    continue;
+                }
+                let (x, y) = (na.real, nb.real);
+                let real = guarded(|| match (sub, variant) {
+                    (false, 0) => x + y,
+                    (false, 1) => &x + y,
+                    (false, 2) => x + &y,
+                    (false, 3) => &x + &y,
+                    (false, 4) => {
+                        let mut t = x;
+                        t += y;
+                        t
+                    }
+                    (false, _) => {
+                        let mut t = x;
+                        t += &y;
+                        t
+                    }
+                    (true, 0) => x - y,
+                    (true, 1) => &x - y,
+                    (true, 2) => x - &y,
+                    (true, 3) => &x - &y,
+                    (true, 4) => {
+                        let mut t = x;
+                        t -= y;
+                        t
+                    }
+                    (true, _) => {
+                        let mut t = x;
+                        t -= &y;
+                        t
+                    }
+                });
+                let model = if sub { na.model.sub(&nb.model) } else { na.model.add(&nb.model) };
+                for i in 0..4 {
+                    if let Some(sc) = shift_class(&na.raw[i], &nb.raw[i]) {
+                        p.tally.add(&format!("add-alignment-shift:{sc}"));
+                    }
+                }
+                let kind = if sub { "sub" } else { "add" };
+                finish_op(p, real, model, json!({kind: [a, b], "variant": variant}), kind, (a, b), abz);
+                if let Some(last) = p.nodes.last() {
+                    if last.kind == kind && last.raw.iter().all(|r| r.2 == 0) && !(na.raw.iter().all(|r| r.2 == 0)) {
+                        p.tally.add("add:cancellation-to-zero");
+                    }
+                }
+                return;
+            }
+            8..=12 => {
+                if na.eb + nb.eb + 140 > EXP_LIMIT || width(&na.model) + width(&nb.model) > MODEL_BITS {
+                    continue;
+                }
+                let (x, y) = (na.real, nb.real);
+                let real = guarded(|| match variant {
+                    0 => x * y,
+                    1 => &x * y,
+                    2 => x * &y,
+                    3 => &x * &y,
+                    4 => {
+                        let mut t = x;
+                        t *= y;
+                        t
+                    }
+                    _ => {
+                        let mut t = x;
+                        t *= &y;
+                        t
+                    }
+                });
+                let model = na.model.mul(&nb.model);
+                finish_op(p, real, model, json!({"mul": [a, b], "variant": variant}), "mul", (a, b), abz);
+                return;
+            }
+            13 => {
+                let x = na.real;
+                let real = guarded(|| x.conj());
+                finish_op(p, real, na.model.conj(), json!({"conj": a}), "conj", (a, a), az);
+                return;
+            }
+            14 => {
+                // negation: Scalar4 has no Neg; the library idioms are minus_one()*x and 0 - x
+                let x = na.real;
+                let which = r.below(3);
+                let real = guarded(|| match which {
+                    0 => Scalar4::minus_one() * x,
+                    1 => Scalar4::zero() - x,
+                    _ => x * Scalar4::from_phase(1),
+                });
+                let name = ["neg(minus_one*x)", "neg(zero-x)", "neg(x*from_phase(1))"][which];
+                finish_op(p, real, na.model.neg(), json!({name: a}), "neg", (a, a), az);
+                return;
+            }
+            15 => {
+                let pw = match r.below(4) {
+                    0 => r.range(-4, 4),
+                    1 => r.range(-130, 130),
+                    2 => -2 * base.0 + r.range(-2, 2),
+                    _ => r.range(-(1 << 26), 1 << 26),
+                };
+                if na.eb + pw.abs() / 2 + 140 > EXP_LIMIT {
+                    continue;
+                }
+                let mut x = na.real;
+                let real = guarded(move || {
+                    x.mul_sqrt2_pow(pw as i32);
+                    x
+                });
+                finish_op(p, real, na.model.mul(&R::sqrt2_pow(pw)), json!({"mul_sqrt2_pow": [a as i64, pw]}), "mul_sqrt2_pow", (a, a), az);
+                return;
+            }
+            16 | 17 => {
+                let (pn, pd) = gen_phase(r);
+                let one_plus = opk == 17 && r.chance(0.5);
+                let cst = guarded(|| if one_plus { Scalar4::one_plus_phase((pn, pd)) } else { Scalar4::from_phase((pn, pd)) });
+                let Ok(cst) = cst else { continue };
+                let cm = match phase_model(pn, pd) {
+                    Some(m) => {
+                        if one_plus {
+                            R::one().add(&m)
+                        } else {
+                            m
+                        }
+                    }
+                    None => r_of_scalar(&cst),
+                };
+                if width(&na.model) + width(&cm) > MODEL_BITS {
+                    continue;
+                }
+                let mut x = na.real;
+                let real = guarded(move || {
+                    if one_plus {
+                        x.mul_one_plus_phase((pn, pd));
+                    } else {
+                        x.mul_phase((pn, pd));
+                    }
+                    x
+                });
+                let kind = if one_plus { "mul_one_plus_phase" } else { "mul_phase" };
+                finish_op(p, real, na.model.mul(&cm), json!({kind: [a as i64, pn, pd]}), kind, (a, a), az || has_approx_zero(&cst.verif_raw()));
+                return;
+            }
+            18 => {
+                // Sum / Product over a few nodes
+                let k = 2 + r.below(3);
+                let idxs: Vec<usize> = (0..k).map(|_| pick_node(r, n)).collect();
+                let prod = r.chance(0.4);
+                let mut model = if prod { R::one() } else { R::zero() };
+                let mut ok = true;
+                let mut eb = 0i64;
+                let mut any_az = false;
+                for &i in &idxs {
+                    let ni = &p.nodes[i];
+                    any_az |= has_approx_zero(&ni.raw);
+                    if prod {
+                        eb += ni.eb + 140;
+                        if width(&model) + width(&ni.model) > MODEL_BITS {
+                            ok = false;
+                            break;
+                        }
+                        model = model.mul(&ni.model);
+                    } else {
+                        if joint_width(&model, &ni.model) > MODEL_BITS || ni.eb > 1 << 20 {
+                            ok = false;
+                            break;
+                        }
+                        model = model.add(&ni.model);
+                    }
+                }
+                if !ok || eb > EXP_LIMIT {
+                    continue;
+                }
+                let vals: Vec<Scalar4> = idxs.iter().map(|&i| p.nodes[i].real).collect();
+                {
+                    // classification only: replay the fold to see whether an intermediate
+                    // accumulator carries an approx-flagged zero coefficient
+                    let vs = vals.clone();
+                    if let Ok(true) = guarded(move || {
+                        let mut acc = if prod { Scalar4::one() } else { Scalar4::zero() };
+                        let mut seen = false;
+                        for v in vs {
+                            acc = if prod { acc * v } else { acc + v };
+                            seen |= has_approx_zero(&acc.verif_raw());
+                        }
+                        seen
+                    }) {
+                        any_az = true;
+                    }
+                }
+                let real = guarded(move || if prod { vals.into_iter().product::<Scalar4>() } else { vals.into_iter().sum::<Scalar4>() });
+                let kind = if prod { "Product" } else { "Sum" };
+                finish_op(p, real, model, json!({kind: idxs}), kind, (idxs[0], idxs[1]), any_az);
+                return;
+            }
+            _ => {
+                // twin: the same value by another route (feeds the == check with equal pairs)
+                let x = na.real;
+                let route = r.below(7);
+                let (real, name): (Result<Scalar4, Caught>, &str) = match (route, na.kind) {
+                    (0, "add") => {
+                        let (u, v) = (p.nodes[na.args.0].real, p.nodes[na.args.1].real);
+                        (guarded(|| v + u), "twin:commuted-add")
+                    }
+                    (0 | 1, "mul") => {
+                        let (u, v) = (p.nodes[na.args.0].real, p.nodes[na.args.1].real);
+                        (guarded(|| v * u), "twin:commuted-mul")
+                    }
+                    (2, _) => (guarded(|| x * Scalar4::one()), "twin:x*one"),
+                    (3, _) => (guarded(|| Scalar4::zero() + x), "twin:zero+x"),
+                    (4, _) => (guarded(|| x.conj().conj()), "twin:conj-conj"),
+                    (5, _) => {
+                        let k = r.range(1, 7);
+                        (
+                            guarded(move || {
+                                let mut t = x;
+                                t.mul_phase((k, 4));
+                                t.mul_phase((8 - k, 4));
+                                t
+                            }),
+                            "twin:omega^k*omega^(8-k)",
+                        )
+                    }
+                    _ => {
+                        let pw = r.range(-9, 9) as i32;
+                        (
+                            guarded(move || {
+                                let mut t = x;
+                                t.mul_sqrt2_pow(pw);
+                                t.mul_sqrt2_pow(-pw);
+                                t
+                            }),
+                            "twin:sqrt2^p*sqrt2^-p",
+                        )
+                    }
+                };
+                let name: &'static str = match name {
+                    "twin:commuted-add" => "twin:commuted-add",
+                    "twin:commuted-mul" => "twin:commuted-mul",
+                    "twin:x*one" => "twin:x*one",
+                    "twin:zero+x" => "twin:zero+x",
+                    "twin:conj-conj" => "twin:conj-conj",
+                    "twin:omega^k*omega^(8-k)" => "twin:omega^k*omega^(8-k)",
+                    _ => "twin:sqrt2^p*sqrt2^-p",
+                };
+                finish_op(p, real, na.model.clone(), json!({name: a}), name, (a, a), true_if_any_az(p, &na));
+                return;
+            }
+        }
+    }
+    // nothing eligible: add a constant instead
+    gen_const(r, p, base);
+}
+
+fn true_if_any_az(p: &Prog, n: &Node) -> bool {
+    let mut az = has_approx_zero(&n.raw);
+    if n.args.0 != usize::MAX {
+        az |= has_approx_zero(&p.nodes[n.args.0].raw) || has_approx_zero(&p.nodes[n.args.1].raw);
+    }
+    az
+}
+
+fn finish_op(p: &mut Prog, real: Result<Scalar4, Caught>, model: R, op: Value, kind: &'static str, args: (usize, usize), az: bool) {
+    match real {
+        Ok(s) => p.push(s, model, op, kind, args, az, false),
+        Err(e) => {
+            let at = p.nodes.len().saturating_sub(1);
+            p.violation(&format!("{kind}|panic|{}", e.site()), at, json!({"op": op, "panic": e.text()}));
+        }
+    }
+}
+
+fn scalar_program(family: &'static str, index: u64, r: &mut Rng) {
+    let c = ctx();
+    let base = gen_base(r);
+    let len = 6 + r.below(19);
+    let nconst = 2 + r.below(4);
+    let mut p = Prog { family, index, nodes: vec![], tally: Tally::default(), violated: false };
+    for _ in 0..nconst {
+        gen_const(r, &mut p, base);
+    }
+    while p.nodes.len() < len && !p.nodes.is_empty() {
+        if r.chance(0.22) {
+            gen_const(r, &mut p, base);
+        } else {
+            gen_op(r, &mut p, base);
+        }
+        if p.violated && p.nodes.len() > 40 {
+            break;
+        }
+    }
+    let n_ops = p.nodes.iter().filter(|n| n.args.0 != usize::MAX).count();
+    let exact_nonzero_op = p.nodes.iter().any(|n| n.args.0 != usize::MAX && !n.flagged && !Num::is_zero(&n.model));
+    let ser = serde_json::to_string(&p.nodes.iter().map(|n| &n.op).collect::<Vec<_>>()).unwrap_or_default();
+    let h = hash_str(&ser);
+    c.case(family, if n_ops >= 3 && exact_nonzero_op { Some(h) } else { None });
+    c.evals(p.nodes.len().saturating_sub(1) as u64);
+    c.maximum("max_model_bits", p.nodes.iter().map(|n| width(&n.model)).max().unwrap_or(0) as u64);
+    c.maximum("max_abs_stored_exponent", p.nodes.iter().map(|n| n.eb).max().unwrap_or(0) as u64);
+    if index < 3 {
+        c.sample_n(4, || json!({"family": family, "index": index, "program": p.listing(p.nodes.len())}));
+    }
+    p.tally.flush();
+}
+
+// ------------------------------------------------------------------------------------
+// Dyadic programs, ordering, abs_diff_eq, f64 conversion
+// ------------------------------------------------------------------------------------
+
+#[derive(Clone)]
+struct DNode {
+    real: Dyadic,
+    raw: Raw,
+    model: R,
+    op: Value,
+}
+
+struct DProg {
+    family: &'static str,
+    index: u64,
+    nodes: Vec<DNode>,
+    tally: Tally,
+}
+
+impl DProg {
+    fn listing(&self, upto: usize) -> Value {
+        json!(self.nodes.iter().take(upto + 1).enumerate().map(|(i, n)| json!({"node": i, "op": n.op, "raw": raw_json(&n.raw), "model": format!("{}", n.model)})).collect::<Vec<_>>())
+    }
+    fn violation(&mut self, sig: &str, at: usize, detail: Value) {
+        let mut d = detail;
+        d["program"] = self.listing(at);
+        d["failing_node"] = json!(at);
+        ctx().violation(sig, self.family, self.index, d);
+    }
+    fn push(&mut self, real: Dyadic, mut model: R, op: Value, kind: &'static str, operand_approx_zero: bool) {
+        let raw = real.verif_raw();
+        let stored = r_of_raw(raw);
+        let idx = self.nodes.len();
+        self.tally.add(&format!("dnode:{kind}"));
+        self.tally.add(if raw.1 { "dnodes:flagged-approx" } else { "dnodes:exact" });
+        if raw.2 & 1 == 1 {
+            self.tally.add("dyadic-mantissa:64-significant-bits");
+        }
+        self.nodes.push(DNode { real, raw, model: model.clone(), op });
+        if raw.2 != 0 && raw.2 >> 63 == 0 {
+            // state invariant named by the property: "val normalised to have its top bit set"
+            let site = if kind == "add" || kind == "sub" { "add/sub" } else { kind };
+            self.violation(&format!("Dyadic::{site}|stored-mantissa-not-normalised"), idx, json!({"operation": kind, "raw": raw_json(&raw)}));
+        }
+        if stored != model {
+            if raw.1 {
+                self.tally.add("dnodes:flagged-and-value-differs-from-model");
+            } else {
+                let sig = if operand_approx_zero {
+                    "Dyadic-arithmetic|unflagged-result-differs-from-exact-value|operand-is-approx-flagged-zero".to_string()
+                } else {
+                    format!("Dyadic::{kind}|unflagged-result-differs-from-exact-value|other")
+                };
+                self.violation(&sig, idx, json!({"operation": kind, "stored": format!("{stored}"), "exact": format!("{model}")}));
+                model = stored.clone();
+                self.nodes[idx].model = model.clone();
+            }
+        }
+        if !raw.1 {
+            let z = real.is_zero();
+            if z != Num::is_zero(&model) {
+                self.violation("Dyadic::is_zero|disagrees-with-exact-value", idx, json!({"observed": z}));
+            }
+            for j in 0..idx {
+                if self.nodes[j].raw.1 {
+                    continue;
+                }
+                let want = self.nodes[j].model == model;
+                let got = self.nodes[j].real == real;
+                self.tally.add(if want { "deq:equal-values" } else { "deq:different-values" });
+                if want != got {
+                    let class = if want { "equal-values-compare-unequal" } else { "different-values-compare-equal" };
+                    self.violation(&format!("Dyadic::eq|{class}"), idx, json!({"other_node": j, "observed_eq": got, "expected_eq": want}));
+                    break;
+                }
+            }
+        }
+        self.check_views_and_f64(idx);
+    }
+
+    /// f64::try_from(Dyadic) against the stored value; val_and_exp/val/exp are only counted
+    fn check_views_and_f64(&mut self, idx: usize) {
+        let n = self.nodes[idx].clone();
+        let (sign, _a, m, e) = n.raw;
+        // signed views (not named by the property statement; root cause of the f64 defect): count only
+        if let Ok((v, ex)) = guarded(|| n.real.val_and_exp()) {
+            let view = if v == 0 { R::zero() } else { R::new([BigInt::from(v), BigInt::zero(), BigInt::zero(), BigInt::zero()], ex as i64) };
+            if view != r_of_raw(n.raw) {
+                self.tally.add("observation:val_and_exp-differs-from-stored-value(64-bit-mantissa-wrap)");
+            }
+        }
+        let top = if m == 0 { None } else { Some(e as i64 + 64) };
+        match guarded(|| f64::try_from(n.real)) {
+            Err(pn) => self.violation(&format!("f64::try_from(Dyadic)|panic|{}", pn.site()), idx, json!({"panic": pn.text()})),
+            Ok(Err(_)) => {
+                match top {
+                    Some(t) if t - 1 >= -800 && t <= 900 => self.violation("f64::try_from(Dyadic)|err-for-representable-value|value-in-[2^-800,2^900]", idx, json!({"raw": raw_json(&n.raw)})),
+                    None => self.violation("f64::try_from(Dyadic)|err-for-zero", idx, json!({"raw": raw_json(&n.raw)})),
+                    Some(t) if t - 1 < -800 => {
+                        // how much of the f64 range is refused? record the largest refused magnitude
+                        self.tally.add(if t - 1 >= -1022 { "dconv:err:normal-f64-range-value-below-2^-800" } else { "dconv:err:below-f64-normal-range" });
+                    }
+                    Some(_) => self.tally.add("dconv:err:above-2^900"),
+                }
+            }
+            Ok(Ok(got)) => {
+                let Some(t) = top else {
+                    self.tally.add("dconv:judged");
+                    if got != 0.0 {
+                        self.violation("f64::try_from(Dyadic)|zero-converts-to-nonzero", idx, json!({"observed": got}));
+                    }
+                    return;
+                };
+                if t > 1000 {
+                    self.tally.add("dconv:skipped-value-above-2^1000");
+                    return;
+                }
+                let mb = BigInt::from(m);
+                let want = dyadic_to_f64_nearest(&if sign { -mb } else { mb }, e as i64);
+                self.tally.add("dconv:judged");
+                if got == want {
+                    self.tally.add("dconv:correctly-rounded");
+                }
+                if !((got - want).abs() <= 1e-12 * want.abs()) {
+                    let wrapped = {
+                        let w = BigInt::from(m) - (BigInt::from(1) << 64usize);
+                        dyadic_to_f64_nearest(&if sign { -w } else { w }, e as i64)
+                    };
+                    let cond = if m & 1 == 1 && (got - wrapped).abs() <= 1e-12 * want.abs() { "consistent-with-64-bit-mantissa-wrapping-negative" } else { "other" };
+                    self.violation(&format!("f64::try_from(Dyadic)|inaccurate|{cond}"), idx, json!({"raw": raw_json(&n.raw), "observed": got, "expected": want}));
+                }
+            }
+        }
+    }
+}
+
+/// exact order of two stored dyadics
+fn cmp_raw(a: &Raw, b: &Raw) -> Ordering {
+    // signed magnitude: (sign, top exponent, mantissa); stored mantissas are normalised
+    let key = |r: &Raw| -> (i8, i64, u64) {
+        if r.2 == 0 {
+            (0, 0, 0)
+        } else {
+            // normalise defensively
+            let lz = r.2.leading_zeros();
+            (if r.0 { -1 } else { 1 }, r.3 as i64 - lz as i64, r.2 << lz)
+        }
+    };
+    let (sa, ea, ma) = key(a);
+    let (sb, eb, mb) = key(b);
+    if sa != sb {
+        return sa.cmp(&sb);
+    }
+    if sa == 0 {
+        return Ordering::Equal;
+    }
+    let mag = (ea, ma).cmp(&(eb, mb));
+    if sa > 0 {
+        mag
+    } else {
+        mag.reverse()
+    }
+}
+
+fn sign_class(r: &Raw) -> &'static str {
+    if r.2 == 0 {
+        "zero"
+    } else if r.0 {
+        "neg"
+    } else {
+        "pos"
+    }
+}
+
+fn check_order(p: &mut DProg, i: usize, j: usize) {
+    let (a, b) = (p.nodes[i].clone(), p.nodes[j].clone());
+    let want = cmp_raw(&a.raw, &b.raw);
+    let pair = format!("{}-vs-{}", sign_class(&a.raw), sign_class(&b.raw));
+    p.tally.add(&format!("order:{pair}:{want:?}"));
+    let detail = |obs: Value| json!({"a": raw_json(&a.raw), "b": raw_json(&b.raw), "a_value": format!("{}", r_of_raw(a.raw)), "b_value": format!("{}", r_of_raw(b.raw)), "expected": format!("{want:?}"), "observed": obs});
+    let zero = a.raw.2 == 0 || b.raw.2 == 0;
+    let denorm = |r: &Raw| r.2 != 0 && r.2 >> 63 == 0;
+    let cond = if zero {
+        "zero-operand"
+    } else if denorm(&a.raw) || denorm(&b.raw) {
+        "operand-mantissa-not-normalised"
+    } else {
+        "nonzero-operands"
+    };
+    match guarded(|| (a.real.cmp(&b.real), a.real.partial_cmp(&b.real), a.real < b.real, a.real > b.real, a.real <= b.real, a.real >= b.real)) {
+        Err(e) => p.violation(&format!("Dyadic::cmp|panic|{}", e.site()), i.max(j), json!({"panic": e.text()})),
+        Ok((c1, c2, lt, gt, le, ge)) => {
+            if c1 != want || c2 != Some(want) {
+                p.violation(&format!("Dyadic::cmp|wrong-order|{cond}|{pair}"), i.max(j), detail(json!(format!("{c1:?}"))));
+            } else if lt != (want == Ordering::Less) || gt != (want == Ordering::Greater) || le != (want != Ordering::Greater) || ge != (want != Ordering::Less) {
+                p.violation(&format!("Dyadic::lt/gt|inconsistent-with-order|{cond}"), i.max(j), detail(json!({"lt": lt, "gt": gt, "le": le, "ge": ge})));
+            }
+        }
+    }
+}
+
+fn check_abs_diff(p: &mut DProg, i: usize, j: usize, eps: Option<Dyadic>) {
+    let (a, b) = (p.nodes[i].clone(), p.nodes[j].clone());
+    let (va, vb) = (r_of_raw(a.raw), r_of_raw(b.raw));
+    if joint_width(&va, &vb) > MODEL_BITS {
+        p.tally.add("absdiff:skipped-operands-too-far-apart-for-the-model");
+        return;
+    }
+    let e = eps.unwrap_or_else(Dyadic::default_epsilon);
+    let eraw = e.verif_raw();
+    let ve = r_of_raw(eraw);
+    if eraw.0 || eraw.2 == 0 {
+        return; // only positive tolerances
+    }
+    let diff = va.sub(&vb);
+    let diff = if diff.c[0].is_negative() { diff.neg() } else { diff };
+    // decide with a factor-4 margin: |a-b| <= eps/4 => true ; |a-b| >= 4 eps => false
+    let is_nonneg = |x: &R| !x.c[0].is_negative();
+    let small = joint_width(&diff, &ve) <= MODEL_BITS && is_nonneg(&ve.sub(&diff.mul(&R::int(4))));
+    let large = joint_width(&diff, &ve) <= MODEL_BITS && is_nonneg(&diff.sub(&ve.mul(&R::int(4))));
+    let want = if small {
+        true
+    } else if large {
+        false
+    } else {
+        p.tally.add("absdiff:skipped-within-factor-4-of-eps");
+        return;
+    };
+    let class = if Num::is_zero(&diff) {
+        "difference=0"
+    } else if small {
+        "difference<=eps/4"
+    } else {
+        "difference>=4eps"
+    };
+    p.tally.add(&format!("absdiff:{class}{}", if eps.is_none() { ":default-eps" } else { "" }));
+    match guarded(|| a.real.abs_diff_eq(&b.real, e)) {
+        Err(pn) => p.violation(&format!("Dyadic::abs_diff_eq|panic|{}", pn.site()), i.max(j), json!({"panic": pn.text()})),
+        Ok(got) => {
+            if got != want {
+                p.violation(
+                    &format!("Dyadic::abs_diff_eq|wrong-answer|{class}"),
+                    i.max(j),
+                    json!({"a": raw_json(&a.raw), "b": raw_json(&b.raw), "epsilon": raw_json(&eraw), "a_value": format!("{va}"), "b_value": format!("{vb}"), "abs_difference": format!("{diff}"), "epsilon_value": format!("{ve}"), "observed": got, "expected": want}),
+                );
+            }
+        }
+    }
+}
+
+fn dyadic_program(family: &'static str, index: u64, r: &mut Rng) {
+    let c = ctx();
+    let base = gen_base(r);
+    let len = 5 + r.below(14);
+    let mut p = DProg { family, index, nodes: vec![], tally: Tally::default() };
+    let mut n_ops = 0;
+    while p.nodes.len() < len {
+        let n = p.nodes.len();
+        let make_const = n < 2 || r.chance(0.3);
+        if make_const {
+            match r.below(8) {
+                0..=4 => {
+                    let (v, e) = (gen_mant(r), gen_exp(r, base));
+                    match guarded(|| Dyadic::new(v, e)) {
+                        Ok(d) => p.push(d, R::from_i64s([v, 0, 0, 0], e as i64), json!({"Dyadic::new": [v, e as i64]}), "new", false),
+                        Err(pn) => {
+                            ctx().violation(&format!("Dyadic::new|panic|{}", pn.site()), family, index, json!({"args": [v, e as i64], "panic": pn.text()}));
+                        }
+                    }
+                }
+                5 => {
+                    let v = gen_mant(r);
+                    if let Ok(d) = guarded(|| Dyadic::from(v)) {
+                        p.push(d, R::from_i64s([v, 0, 0, 0], 0), json!({"Dyadic::from(i64)": v}), "from_i64", false);
+                    }
+                }
+                6 => {
+                    let x = gen_f64(r);
+                    match guarded(|| Dyadic::from(x)) {
+                        Ok(d) => {
+                            p.push(d, r_of_f64(x), json!({"Dyadic::from(f64)": x, "bits": format!("{:016x}", x.to_bits())}), "from_f64", false);
+                            let idx = p.nodes.len() - 1;
+                            // From<f64> stores the float exactly, and it round-trips
+                            if r_of_raw(d.verif_raw()) != r_of_f64(x) {
+                                p.violation("Dyadic::from(f64)|stored-value-differs-from-float", idx, json!({"float": x}));
+                            } else {
+                                match guarded(|| f64::try_from(d)) {
+                                    Ok(Ok(y)) => {
+                                        p.tally.add("dyadic-f64-roundtrip:judged");
+                                        if y != x {
+                                            p.violation("Dyadic::from(f64)->f64|round-trip-not-exact", idx, json!({"in": x, "out": y}));
+                                        }
+                                    }
+                                    Ok(Err(_)) => {
+                                        let cls = if x == 0.0 {
+                                            "zero"
+                                        } else if x.abs() < f64::MIN_POSITIVE {
+                                            "subnormal"
+                                        } else if x.abs() < 2f64.powi(-800) {
+                                            "normal-float-below-2^-800"
+                                        } else if x.abs() > 2f64.powi(900) {
+                                            "float-above-2^900"
+                                        } else {
+                                            "in-window"
+                                        };
+                                        p.tally.add(&format!("dyadic-f64-roundtrip:err:{cls}"));
+                                        if x != 0.0 {
+                                            c.maximum("largest_small_float_refused_by_f64_try_from:-log2", if x.abs() < 1.0 { (-x.abs().log2()) as u64 } else { 0 });
+                                        }
+                                    }
+                                    Err(_) => {}
+                                }
+                            }
+                        }
+                        Err(pn) => ctx().violation(&format!("Dyadic::from(f64)|panic|{}", pn.site()), family, index, json!({"float": x, "panic": pn.text()})),
+                    }
+                }
+                _ => {
+                    if let Ok(d) = guarded(Dyadic::zero) {
+                        p.push(d, R::zero(), json!("Dyadic::zero()"), "zero", false);
+                    }
+                }
+            }
+            continue;
+        }
+        let a = pick_node(r, n);
+        let b = if r.chance(0.15) { a } else { pick_node(r, n) };
+        let (na, nb) = (p.nodes[a].clone(), p.nodes[b].clone());
+        let (x, y) = (na.real, nb.real);
+        let az = (na.raw.2 == 0 && na.raw.1) || (nb.raw.2 == 0 && nb.raw.1);
+        let variant = r.chance(0.3);
+        match r.below(9) {
+            0..=2 | 3..=4 => {
+                if joint_width(&na.model, &nb.model) > MODEL_BITS || joint_width(&r_of_raw(na.raw), &r_of_raw(nb.raw)) > MODEL_BITS {
+                    continue;
+                }
+                let sub = r.chance(0.45);
+                let real = guarded(|| match (sub, variant) {
+                    (false, false) => x + y,
+                    (false, true) => {
+                        let mut t = x;
+                        t += y;
+                        t
+                    }
+                    (true, false) => x - y,
+                    (true, true) => {
+                        let mut t = x;
+                        t -= y;
+                        t
+                    }
+                });
+                if let Some(sc) = shift_class(&na.raw, &nb.raw) {
+                    p.tally.add(&format!("dyadic-add-alignment-shift:{sc}"));
+                }
+                let model = if sub { na.model.sub(&nb.model) } else { na.model.add(&nb.model) };
+                let kind = if sub { "sub" } else { "add" };
+                match real {
+                    Ok(d) => {
+                        p.push(d, model, json!({kind: [a, b]}), kind, az);
+                        n_ops += 1;
+                        if d.verif_raw().2 == 0 && na.raw.2 != 0 {
+                            p.tally.add("dyadic-add:cancellation-to-zero");
+                        }
+                    }
+                    Err(pn) => p.violation(&format!("Dyadic::{kind}|panic|{}", pn.site()), n - 1, json!({"operands": [a, b], "panic": pn.text()})),
+                }
+            }
+            5..=6 => {
+                let eb = |r: &Raw| (r.3 as i64).abs() + 64;
+                if eb(&na.raw) + eb(&nb.raw) + 140 > EXP_LIMIT || width(&na.model) + width(&nb.model) > MODEL_BITS {
+                    continue;
+                }
+                let real = guarded(|| {
+                    if variant {
+                        let mut t = x;
+                        t *= y;
+                        t
+                    } else {
+                        x * y
+                    }
+                });
+                match real {
+                    Ok(d) => {
+                        p.push(d, na.model.mul(&nb.model), json!({"mul": [a, b]}), "mul", az);
+                        n_ops += 1;
+                    }
+                    Err(pn) => p.violation(&format!("Dyadic::mul|panic|{}", pn.site()), n - 1, json!({"operands": [a, b], "panic": pn.text()})),
+                }
+            }
+            7 => {
+                if let Ok(d) = guarded(|| -x) {
+                    p.push(d, na.model.neg(), json!({"neg": a}), "neg", az);
+                    n_ops += 1;
+                }
+            }
+            _ => {
+                if let Ok(d) = guarded(|| x.abs()) {
+                    let m = if na.model.c[0].is_negative() { na.model.neg() } else { na.model.clone() };
+                    p.push(d, m, json!({"abs": a}), "abs", az);
+                    n_ops += 1;
+                }
+            }
+        }
+    }
+    // ordering and approximate equality on pairs of the values reached
+    let n = p.nodes.len();
+    for _ in 0..(2 * n) {
+        let i = r.below(n);
+        let j = match r.below(4) {
+            0 => i,
+            _ => r.below(n),
+        };
+        check_order(&mut p, i, j);
+        let eps = match r.below(4) {
+            0 => None,
+            1 => Some(Dyadic::new(1, r.range(-200, 60) as i32)),
+            2 => {
+                // tolerance comparable to the operands
+                let e = p.nodes[i].raw.3 as i64 + r.range(-10, 70);
+                Some(Dyadic::new(r.range(1, 9), e.clamp(-(1 << 28), 1 << 28) as i32))
+            }
+            _ => Some(Dyadic::new((r.next_u64() >> 1) as i64 | 1, r.range(-300, 100) as i32)),
+        };
+        check_abs_diff(&mut p, i, j, eps);
+    }
+    let ser = serde_json::to_string(&p.nodes.iter().map(|n| &n.op).collect::<Vec<_>>()).unwrap_or_default();
+    let exact_nonzero = p.nodes.iter().any(|n| !n.raw.1 && n.raw.2 != 0);
+    c.case(family, if n_ops >= 2 && exact_nonzero { Some(hash_str(&ser)) } else { None });
+    c.evals(p.nodes.len().saturating_sub(1) as u64);
+    if index < 2 {
+        c.sample_n(6, || json!({"family": family, "index": index, "program": p.listing(p.nodes.len())}));
+    }
+    p.tally.flush();
+}
+
+// ------------------------------------------------------------------------------------
+// directed edge cases (deterministic; cheap; makes sure the named edges are always visited)
+// ------------------------------------------------------------------------------------
+
+fn directed(family: &'static str, index: u64, _r: &mut Rng) {
+    let mut p = DProg { family, index, nodes: vec![], tally: Tally::default() };
+    let consts: Vec<(i64, i32)> = vec![(0, 0), (1, 0), (-1, 0), (1, -100), (5, -200), (1, 70), (i64::MAX, 1), (i64::MAX, 0), (3, 62), (1, 64), (1, 63), (1, 65), (-3, 5), (1, -1021 - 63), (1, 1000)];
+    for (v, e) in consts.iter() {
+        let d = Dyadic::new(*v, *e);
+        p.push(d, R::from_i64s([*v, 0, 0, 0], *e as i64), json!({"Dyadic::new": [v, e]}), "new", false);
+    }
+    // (2^63-1)*2 + 1 = 2^64-1 : an exact mantissa with 64 significant bits
+    let a = p.nodes[6].clone();
+    let b = p.nodes[1].clone();
+    if let Ok(d) = guarded(|| a.real + b.real) {
+        p.push(d, a.model.add(&b.model), json!({"add": [6, 1]}), "add", false);
+    }
+    let n = p.nodes.len();
+    for i in 0..n {
+        for j in 0..n {
+            check_order(&mut p, i, j);
+        }
+        check_abs_diff(&mut p, i, i, None);
+    }
+    check_abs_diff(&mut p, 0, 3, None);
+    check_abs_diff(&mut p, 3, 4, None);
+    check_abs_diff(&mut p, 1, 2, None);
+    p.tally.flush();
+    // Scalar4: the exact scalar 2^64-1 and friends through the recognisers and the conversion
+    let mut q = Prog { family, index, nodes: vec![], tally: Tally::default(), violated: false };
+    q.push(Scalar4::new([i64::MAX, 0, 0, 0], 1), R::from_i64s([i64::MAX, 0, 0, 0], 1), json!({"Scalar4::new": [[i64::MAX, 0, 0, 0], 1]}), "Scalar4::new", (usize::MAX, usize::MAX), false, false);
+    q.push(Scalar4::one(), R::one(), json!("one()"), "one", (usize::MAX, usize::MAX), false, false);
+    let (x, y) = (q.nodes[0].clone(), q.nodes[1].clone());
+    finish_op(&mut q, guarded(|| x.real + y.real), x.model.add(&y.model), json!({"add": [0, 1]}), "add", (0, 1), false);
+    for k in 0..8 {
+        for pw in [-3i64, -1, 0, 1, 2, 5] {
+            let m = R::omega_pow(k).mul(&R::sqrt2_pow(pw));
+            let real = guarded(|| {
+                let mut s = Scalar4::from_phase((k, 4));
+                s.mul_sqrt2_pow(pw as i32);
+                s
+            });
+            finish_op(&mut q, real, m, json!({"from_phase*sqrt2_pow": [k, pw]}), "mul_sqrt2_pow", (0, 0), false);
+        }
+    }
+    ctx().case(family, Some(hash_str("directed")));
+    q.tally.flush();
+}
 
 pub fn run() {
-    ctx().harness_error("C07 monitor not implemented yet");
+    let c = ctx();
+    if let Err(e) = ring::self_test() {
+        c.harness_error(&format!("ring oracle self-test failed: {e}"));
+        return;
+    }
+    if let Err(e) = ratio::self_test() {
+        c.harness_error(&format!("ratio oracle self-test failed: {e}"));
+        return;
+    }
+    c.set_rule(
+        "one case = one random straight-line program (6-24 Scalar4 nodes, or 5-18 Dyadic nodes plus 2n ordering/abs_diff_eq pairs); every node is judged (evaluations counts nodes); a program is non-trivial when it has >= 3 (Scalar4) / >= 2 (Dyadic) operator nodes and at least one operator result that is NOT flagged approximate and non-zero; distinct = distinct 64-bit hashes of the serialised program",
+    );
+    c.assume("exact model oracle::ring::R (BigInt Z[omega][1/2]) and oracle::ratio (BigInt -> nearest f64) are correct; both self-tested at start");
+    c.assume("supported exponent range taken as |exponent| < 2^29 so that quizx's i32 exponent arithmetic cannot overflow; constants use |pow| <= 2^27");
+    c.assume("additions whose exact result would need more than 20000 bits in the model are not generated (alignment shifts up to ~20000 are)");
+    c.assume("conversion Err is judged only when every non-zero coefficient lies in [2^-800, 2^900]; conversions of values above 2^1000 are not judged");
+    let t = c.tier;
+    par_cases("directed-edges", 1, |r, i| directed("directed-edges", i, r));
+    let (ns, nd) = t.pick((12_000usize, 12_000usize), (1_500_000usize, 1_500_000usize));
+    par_cases("scalar4-programs", ns, |r, i| scalar_program("scalar4-programs", i, r));
+    par_cases("dyadic-programs", nd, |r, i| dyadic_program("dyadic-programs", i, r));
+    c.extra("exhaustive", json!(false));
 }
